@@ -681,7 +681,7 @@ func TestVerifC19(t *testing.T) {
 	}
 
 	r := vfNewRand(out.Seed)
-	n := out.Scale(700, 12000)
+	n := out.Scale(700, 5000)
 	for i := 0; i < n; i++ {
 		rr := r.Fork(uint64(i))
 		c19Run(out, w.history(rr, int(rr.Range(3, 14))), nil)
